@@ -631,15 +631,21 @@ func (e *Engine) resolveAssign(s *State, env *Env, a string, w *WriteSet) {
 			} else {
 				obj = env.pkg.Scope().Lookup(tn)
 			}
+			resolved := false
 			if obj != nil {
 				if st, ok := obj.Type().Underlying().(*types.Struct); ok {
 					for i := 0; i < st.NumFields(); i++ {
 						if st.Field(i).Name() == fn || fn == "*" {
 							key, _ := e.fieldKey(obj.Type(), i)
 							w.Heap[key] = true
+							resolved = true
 						}
 					}
 				}
+			}
+			if !resolved {
+				// a frame clause naming an unknown type or field must not pass silently
+				e.bail("frame clause item %q does not name a struct field visible from package %s", a, env.pkg.Path())
 			}
 		}
 		return
